@@ -190,8 +190,22 @@ impl Check for C08 {
     fn run_case(&self, ctx: &Ctx, index: u64, st: &mut Stats) {
         let mut rng = Rng::for_case(ctx.seed, "C08", index);
         let depth = if ctx.tier == Tier::Quick { 2 + (index % 2) as u32 } else { 2 + (index % 3) as u32 };
-        let p = gen::generate(&mut rng, Cfg::general(depth));
-        let name = default_name(&p);
+        // every other case: binder-heavy program printed with maximal shadowing (the same names in
+        // all 8 variants), so that annotations are also erased where a name hides an outer one
+        let shadowed = index % 2 == 1;
+        let mut cfg = Cfg::general(depth);
+        if shadowed {
+            cfg.profile = Profile::Binders;
+        }
+        let p = gen::generate(&mut rng, cfg);
+        let distinct = default_name(&p);
+        let an = scope::analyse(&p);
+        let (sn_names, _) = shadow_names(&p, &an, if index % 4 == 1 { 0 } else { rng.next() | 1 }, LOCAL_POOL);
+        let shadow = |b: BId| sn_names[b].clone();
+        let name: &dyn Fn(BId) -> String = if shadowed { &shadow } else { &distinct };
+        if shadowed {
+            st.count("cases_with_shadowing_names");
+        }
         // A call whose callee is (a field of) a parameter needs that parameter's type: erasing
         // that annotation is a quarantined hazard feature (known finding), used in 1 case out of 8.
         let called = called_params(&p);
@@ -204,8 +218,8 @@ impl Check for C08 {
             st.count("hazard_cases(erased_annotation_of_called_parameter)");
         }
         let mut vs = vec![
-            Variant { label: "all annotations".into(), text: print_with(&p, &name, &all_annot, None, None, None) },
-            Variant { label: "no annotations".into(), text: print_with(&p, &name, &none, None, None, None) },
+            Variant { label: "all annotations".into(), text: print_with(&p, name, &all_annot, None, None, None) },
+            Variant { label: "no annotations".into(), text: print_with(&p, name, &none, None, None, None) },
         ];
         for k in 0..6u64 {
             let salt = rng.next();
@@ -219,7 +233,7 @@ impl Check for C08 {
                 };
                 keep3(s) || hash64(&[salt.to_le_bytes(), key.0.to_le_bytes(), key.1.to_le_bytes()].concat()) % 4 < density
             };
-            vs.push(Variant { label: format!("subset#{} density {}/4", k, density), text: print_with(&p, &name, &sub, None, None, None) });
+            vs.push(Variant { label: format!("subset#{} density {}/4", k, density), text: print_with(&p, name, &sub, None, None, None) });
         }
         // generic snippets: variant 0 = fully annotated, variant 1 = erased, the subsets rotate over the three renderings
         let sn = (index as usize) % GENERIC_SNIPPETS.len();
